@@ -525,7 +525,10 @@ def doNetOp (p : KParams) (ctx : String) (op : List String) (s : KSt) : Option K
             -- the connect timer is destroyed with the socket: a parked refusal is delivered now
             let s := applyNEffs p netFuel [.cancelTimer name 0] s
             some (res { s with net := { s.net with tcps := s.net.tcps.filter (·.1 != name) } } "-")
-          | "open", v :: _ => some (res (fx (s.net.tcpOpen now name (v != "v6")) s) "ok")
+          | "open", v :: _ =>
+            -- acceptor::open(): close as an acceptor first (stop listening, reset queued connections)
+            let s := if isAcc then fx (s.net.accClose now name) s else s
+            some (res (fx (s.net.tcpOpen now name (v != "v6")) s) "ok")
           | "bind", e :: _ =>
             match Ep.parse e with
             | none => some (res s "bad-op")
